@@ -14,6 +14,7 @@ import (
 	"github.com/basecomplextech/baselibrary/bin"
 	"github.com/basecomplextech/baselibrary/pools"
 	"github.com/basecomplextech/baselibrary/status"
+	"github.com/basecomplextech/spec/internal/verifpoint"
 	"github.com/basecomplextech/spec/proto/pmpx"
 )
 
@@ -40,6 +41,7 @@ type channelState struct {
 
 func newChannelState(conn internalConn, client bool, id bin.Bin128, window int32) *channelState {
 	s := channelStatePool.New()
+	verifpoint.Point("pool.chanstate.get", verifpoint.Ptr(s), s.verifDirty(), 0)
 	s.id = id
 	s.ctx = newContext(conn)
 	s.conn = conn
@@ -57,6 +59,7 @@ func openChannelState(conn internalConn, client bool, msg pmpx.ChannelOpen) *cha
 	window := msg.Window()
 
 	s := channelStatePool.New()
+	verifpoint.Point("pool.chanstate.get", verifpoint.Ptr(s), s.verifDirty(), 0)
 	s.id = id
 	s.ctx = newContext(conn)
 	s.conn = conn
@@ -160,7 +163,9 @@ func (s *channelState) decrementSendWindow(ctx async.Context, data []byte) statu
 	for {
 		// Decrement send window for normal small messages
 		window := s.sendWindow.Load()
+		verifpoint.Point("ch.window.check", int64(window), int64(size), int64(s.initWindow))
 		if window >= int32(size) {
+			verifpoint.Point("ch.window.admit", int64(window), int64(size), int64(s.initWindow))
 			s.sendWindow.Add(-size)
 			return status.OK
 		}
@@ -169,6 +174,7 @@ func (s *channelState) decrementSendWindow(ctx async.Context, data []byte) statu
 		// is greater than the half of the initial window, but the message size
 		// still exceeds it.
 		if window >= s.initWindow/2 {
+			verifpoint.Point("ch.window.admit", int64(window), int64(size), int64(s.initWindow))
 			s.sendWindow.Add(-size)
 			return status.OK
 		}
@@ -222,6 +228,7 @@ var channelStatePool = pools.NewPoolFunc(
 )
 
 func releaseChannelState2(s *channelState) {
+	verifpoint.Point("pool.chanstate.put", verifpoint.Ptr(s), 0, 0)
 	s.reset()
 	channelStatePool.Put(s)
 }
